@@ -54,6 +54,18 @@ pub use builder::*;
 
 use self::frame::{SessionFrame, SessionFrameBody, SessionOutgoingItem};
 
+/// Number of transfer frames sent (`next_outgoing_id`) that the peer had not yet received
+/// (`peer_next_incoming_id`), in wrapping sequence-number arithmetic. A peer that claims
+/// to be ahead of what was sent has nothing in flight.
+fn frames_in_flight(next_outgoing_id: TransferNumber, peer_next_incoming_id: TransferNumber) -> u32 {
+    let distance = next_outgoing_id.wrapping_sub(peer_next_incoming_id);
+    if (distance as i32) < 0 {
+        0
+    } else {
+        distance
+    }
+}
+
 /// Default incoming_window and outgoing_window
 pub const DEFAULT_WINDOW: Uint = 5000;
 
@@ -491,20 +503,22 @@ impl Session {
             Some(flow_next_incoming_id) => {
                 // The remote-incoming-window is computed as follows:
                 // next-incoming-id_flow + incoming-window_flow - next-outgoing-id_endpoint
-                self.remote_incoming_window = flow_next_incoming_id
-                    .saturating_add(flow.incoming_window)
-                    .saturating_sub(self.next_outgoing_id);
+                //
+                // Transfer-ids are sequence numbers that wrap around. Our next-outgoing-id is
+                // never behind the peer's next-incoming-id, so their (wrapping) distance is
+                // the number of frames the peer had not yet received; they use up the
+                // window first.
+                let in_flight = frames_in_flight(self.next_outgoing_id, *flow_next_incoming_id);
+                self.remote_incoming_window = flow.incoming_window.saturating_sub(in_flight);
             }
             None => {
                 // If the next-incoming-id field of the flow frame is not set,
                 // then remote-incoming-window is computed as follows:
                 // initial-outgoing-id_endpoint + incoming-window_flow -
                 // next-outgoing-id_endpoint
-                self.remote_incoming_window = self
-                    .initial_outgoing_id
-                    .value()
-                    .saturating_add(flow.incoming_window)
-                    .saturating_sub(self.next_outgoing_id);
+                let in_flight =
+                    frames_in_flight(self.next_outgoing_id, *self.initial_outgoing_id.value());
+                self.remote_incoming_window = flow.incoming_window.saturating_sub(in_flight);
             }
         }
 
